@@ -6,6 +6,7 @@ import (
 	"fmt"
 	"io"
 	"os"
+	"regexp"
 	"path/filepath"
 	"reflect"
 	"sort"
@@ -282,6 +283,15 @@ func c17Doc(c *fw.Ctx) (corpusDoc, string) {
 		d := genDoc(c.R, format, false)
 		switch format {
 		case "ttml":
+			if (c.Idx/int64(8*len(corpusFormats)))%2 == 0 {
+				// not a trailer but an HTML-ism inside: a named entity XML does not know. Whatever the reader makes of it
+				// (an error, today), it makes it of every delivery
+				if loc := regexp.MustCompile(`</([A-Za-z]+:)?p>`).FindIndex(d.Data); loc != nil {
+					d.Data = append(append(append([]byte(nil), d.Data[:loc[0]]...), "&nbsp;&eacute;"...), d.Data[loc[0]:]...)
+				}
+				d.Origin = "generated, with an HTML entity"
+				return d, "trailer"
+			}
 			d.Data = append(d.Data, fw.Pick(c.R, []string{"\n<!-- made with a tool -->\n", "\ntrailing text", "<tt/>", "\n\n" + string(d.Data), "\x00\x00", "\n<", strings.Repeat(" ", 5000) + "x"})...)
 		default:
 			extra := make([]byte, c.R.Range(1, 127))
@@ -474,6 +484,22 @@ func c17Run(c *fw.Ctx) fw.Outcome {
 			}
 		}
 		if o := check(fmt.Sprintf("random chunks up to %d bytes, zero-length reads: %v", maxChunk, len(zero) > 0), cuts, i%3 == 0, zero); o != nil {
+			return *o
+		}
+	}
+	{
+		// a hesitant source: over the first two KiB every chunk of 1..8 bytes is preceded by a read that delivers nothing
+		// (never two in a row), then the rest in one piece
+		var cuts []int
+		zero := map[int]int{0: 1}
+		for p := 0; p < n && p < 2200; {
+			p += 1 + c.R.Intn(8)
+			if p < n {
+				cuts = append(cuts, p)
+				zero[p] = 1
+			}
+		}
+		if o := check("chunks of 1..8 bytes, each after a zero-length read", cuts, false, zero); o != nil {
 			return *o
 		}
 	}
